@@ -212,6 +212,19 @@ theorem Q18.checkAcks {a b : A} (h : Q18 a b) (cfg : Cfg) (u : Nat) (e : Bool) (
     Q18 a (Spec.checkAcks cfg b u e evs) := h.trans (q18_checkAcks cfg b u e evs)
 theorem Q18.checkDepartures {a b : A} (h : Q18 a b) (cfg : Cfg) (md : Option Nat) (evs : List Ev) :
     Q18 a (Spec.checkDepartures cfg b md evs) := h.trans (q18_checkDepartures cfg b md evs)
+theorem q18_checkDeparturesAny (cfg : Cfg) (b : A) (o : Option (List Nat)) (md : Option Nat) (evs : List Ev) :
+    Q18 b (Spec.checkDeparturesAny cfg b o md evs) := by
+  cases o with
+  | none => exact q18_checkDepartures cfg b md evs
+  | some v =>
+    obtain ⟨h1, h2⟩ := q18_checkDepartures cfg { b with wAny := v } md evs
+    refine ⟨?_, h2⟩
+    show ({ Spec.checkDepartures cfg { b with wAny := v } md evs with wAny := b.wAny } : A).noErr = b.noErr
+    have : ({ Spec.checkDepartures cfg { b with wAny := v } md evs with wAny := b.wAny } : A).noErr =
+        ({ (Spec.checkDepartures cfg { b with wAny := v } md evs).noErr with wAny := b.wAny } : A) := rfl
+    rw [this, h1]; rfl
+theorem Q18.checkDeparturesAny {a b : A} (h : Q18 a b) (cfg : Cfg) (o : Option (List Nat)) (md : Option Nat) (evs : List Ev) :
+    Q18 a (Spec.checkDeparturesAny cfg b o md evs) := h.trans (q18_checkDeparturesAny cfg b o md evs)
 theorem Q18.checkData {a b : A} (h : Q18 a b) (cfg : Cfg) (hd : Hdr) (evs : List Ev) :
     Q18 a (Spec.checkData cfg b hd evs) := h.trans (q18_checkData cfg b hd evs)
 theorem Q18.checkInfos {a b : A} (h : Q18 a b) (evs : List Ev) :
@@ -578,7 +591,8 @@ theorem roundPre_eq (cfg : Cfg) (a : A) (r : Round) (evs : List Ev) :
        let pre := (splitRd evs).1
        let segs := (splitRd evs).2
        let aP := (roundPreSt a r segs).chk ((closes pre).isEmpty || !(wfails pre).isEmpty) "C07" "a connection was closed before any frame was read in this round"
-       let aP := applyDepartures (checkDepartures cfg (checkNoticeOrigin cfg aP none pre) none pre) pre
+       let aP := applyDepartures (checkDeparturesAny cfg (checkNoticeOrigin cfg aP none pre)
+         (if segs.isEmpty then some ((roundAcc a r).w ++ roundW a r) else none) none pre) pre
        let a : A := { aP with w := roundW a r }
        let a := roundBody.go cfg a reads segs (reads.length + segs.length + 1)
        if segs.isEmpty then a else (pre :: (segs.dropLast.map (·.2))).foldl (noteMgrFrames cfg) a) := by
@@ -610,23 +624,24 @@ theorem q18_roundPre (cfg : Cfg) (a : A) (r : Round) (evs : List Ev) : Q18 (roun
   have hst : ({ roundPreSt a r (splitRd evs).2 with w := roundW a r } : A) = roundEnv a r := by
     rw [roundEnv_eq]; unfold roundPreSt; split <;> rfl
   have h4 : Q18 (applyDepartures (roundPreSt a r (splitRd evs).2) (splitRd evs).1)
-      (applyDepartures (checkDepartures cfg (checkNoticeOrigin cfg ((roundPreSt a r (splitRd evs).2).chk ((closes (splitRd evs).1).isEmpty || !(wfails (splitRd evs).1).isEmpty) "C07"
-        "a connection was closed before any frame was read in this round") none (splitRd evs).1) none (splitRd evs).1) (splitRd evs).1) :=
-    q18_dep (Q18.checkDepartures ((q18_chk _ _ _ _ rfl).trans (q18_checkNoticeOrigin _ _ _ _)) _ _ _) _
+      (applyDepartures (checkDeparturesAny cfg (checkNoticeOrigin cfg ((roundPreSt a r (splitRd evs).2).chk ((closes (splitRd evs).1).isEmpty || !(wfails (splitRd evs).1).isEmpty) "C07"
+        "a connection was closed before any frame was read in this round") none (splitRd evs).1)
+        (if (splitRd evs).2.isEmpty then some ((roundAcc a r).w ++ roundW a r) else none) none (splitRd evs).1) (splitRd evs).1) :=
+    q18_dep (Q18.checkDeparturesAny ((q18_chk _ _ _ _ rfl).trans (q18_checkNoticeOrigin _ _ _ _)) _ _ _ _) _
   have h5 := q18_setW h4 (roundW a r)
   rw [← applyDepartures_setW, hst] at h5
   have h6 := q18_go cfg (roundReads a r) _ _ (splitRd evs).2 ((roundReads a r).length + (splitRd evs).2.length + 1) h5 (by omega)
   split
-  · exact h6
-  · exact q18_noteAll cfg _ h6
+  · rename_i hc; rw [if_pos hc] at h6; exact h6
+  · rename_i hc; rw [if_neg hc] at h6; exact q18_noteAll cfg _ h6
 
 /-! ### the periodic section -/
 
 theorem eq_of_noErr {a b : A} (h : b.noErr = a.noErr) : b = { a with errs := b.errs } := by
   cases a; cases b
   simp only [A.noErr, A.mk.injEq] at h ⊢
-  obtain ⟨h1, h2, h3, h4, h5, h6, h7, h8, h9, h10, h11, h12, h13, h14, _⟩ := h
-  exact ⟨h1, h2, h3, h4, h5, h6, h7, h8, h9, h10, h11, h12, h13, h14, trivial⟩
+  obtain ⟨h1, h2, h3, h4, h5, h6, h7, h8, h9, h10, h11, h12, h13, h14, h15, _⟩ := h
+  exact ⟨h1, h2, h3, h4, h5, h6, h7, h8, h9, h10, h11, h12, h13, h14, h15, trivial⟩
 
 /-- `b` is `a` with (possibly) more errors of any kind -/
 def QN (a b : A) : Prop := b.noErr = a.noErr
